@@ -30,6 +30,22 @@ struct Violation {
     replay_path: String,
 }
 
+/// Violations recorded so far in this process (property, replay path): lets the watchdog / abort handler
+/// of a run that dies later still deliver the verdict that was already reached.
+pub static FOUND_SO_FAR: std::sync::Mutex<Vec<(String, String)>> = std::sync::Mutex::new(Vec::new());
+
+/// Print the VIOLATION lines of everything found so far; true if there was anything.
+pub fn emergency_flush() -> bool {
+    let g = match FOUND_SO_FAR.try_lock() {
+        Ok(g) => g,
+        Err(_) => return false,
+    };
+    for (prop, path) in g.iter() {
+        println!("VIOLATION property={prop} replay={path}");
+    }
+    !g.is_empty()
+}
+
 pub struct Report {
     pub prop: String,
     pub tier: Tier,
@@ -177,6 +193,11 @@ impl Report {
             let _ = std::fs::write(&path, serde_json::to_string_pretty(&body).unwrap());
         }
         eprintln!("violation {} [{}]: {}", self.prop, class_key, what);
+        if !self.replay_mode {
+            if let Ok(mut g) = FOUND_SO_FAR.lock() {
+                g.push((self.prop.clone(), path.clone()));
+            }
+        }
         self.violations.push(Violation {
             key: class_key.to_string(),
             what: what.to_string(),
